@@ -78,3 +78,141 @@ class _UnsetBit:
 
     def control_sets_instead(self, bit, result, old):
         return unbe(self._data) == unbe(old.self._data) + 2 ** bit
+
+
+# =========================================================================================
+#  Address and Time (against assumed contracts of ipaddress / a model of naive datetimes)
+# =========================================================================================
+import datetime                                                       # noqa: E402
+from pyvc.spec import be, is_instance_of                              # noqa: E402
+from bromelia.avps.ietf.rfc6733 import HostIpAddressAVP, EventTimestampAVP    # noqa: E402
+from bromelia.exceptions import DataTypeError                         # noqa: E402
+from bromelia.constants import HOST_IP_ADDRESS_FAMILY_CODE_IPV4, HOST_IP_ADDRESS_FAMILY_CODE_IPV6   # noqa: E402
+import ipaddress                                                      # noqa: E402
+
+
+def _addr_self():
+    return T.Obj(HostIpAddressAVP, slots={"_flags": T.Bytes(1)},
+                 idict={"code": T.Const(HostIpAddressAVP.code), "vendor_id": T.NoneS})
+
+
+@contract("bromelia.types.AddressType.parser_data", prop="C20", name="literal")
+class _AddrFromLiteral:
+    """an IPv4 / IPv6 literal is stored as family code (0001 / 0002) + the packed address"""
+    args = {"self": _addr_self(), "data": T.Str()}
+
+    def ensures_family_then_packed(self, data):
+        a = ipaddress.ip_address(data)
+        return implies(is_instance_of(a, ipaddress.IPv4Address),
+                       self._data == HOST_IP_ADDRESS_FAMILY_CODE_IPV4 + a.packed and len(self._data) == 6) \
+            and implies(is_instance_of(a, ipaddress.IPv6Address),
+                        self._data == HOST_IP_ADDRESS_FAMILY_CODE_IPV6 + a.packed and len(self._data) == 18)
+
+    def exceptional(self, data, exc):
+        # not a literal: the library lets ipaddress' ValueError through (an exception, as C10/C20 allow)
+        return is_instance_of(exc, ValueError)
+
+    def control_family_swapped(self, data):
+        a = ipaddress.ip_address(data)
+        return implies(is_instance_of(a, ipaddress.IPv4Address),
+                       self._data == HOST_IP_ADDRESS_FAMILY_CODE_IPV6 + a.packed)
+
+
+def _addr_obj(family):
+    n = 4 if family == 4 else 16
+    code = HOST_IP_ADDRESS_FAMILY_CODE_IPV4 if family == 4 else HOST_IP_ADDRESS_FAMILY_CODE_IPV6
+    return T.Obj(HostIpAddressAVP, slots={"_flags": T.Bytes(1), "_data": T.Concat(T.Const(code), T.Bytes(n))},
+                 idict={"code": T.Const(HostIpAddressAVP.code), "vendor_id": T.NoneS})
+
+
+def _accessor_contracts(family):
+    n = 4 if family == 4 else 16
+
+    @contract("bromelia.types.AddressType.get_ip_address", prop="C20", name="ipv%d" % family)
+    class _Get:
+        """the accessors report the family and the address the data encodes"""
+        args = {"self": _addr_obj(family)}
+
+        def ensures_same_address(self, result):
+            a = ipaddress.ip_address(self._data[2:])
+            return result == str(a) and len(self._data[2:]) == n
+
+        def ensures_reparses_to_same_data(self, result):
+            return ipaddress.ip_address(result).packed == self._data[2:]
+
+    @contract("bromelia.types.AddressType.is_ipv4", prop="C20", name="ipv%d" % family)
+    class _Is4:
+        args = {"self": _addr_obj(family)}
+
+        def ensures_family(result):
+            return result == (family == 4)
+
+    @contract("bromelia.types.AddressType.is_ipv6", prop="C20", name="ipv%d" % family)
+    class _Is6:
+        args = {"self": _addr_obj(family)}
+
+        def ensures_family(result):
+            return result == (family == 6)
+
+
+_accessor_contracts(4)
+_accessor_contracts(6)
+
+
+@contract("bromelia.types.AddressType.parser_data", prop="C20", name="bytes")
+class _AddrFromBytes:
+    """wire data: family code + exactly 4 / 16 address bytes, else the library's DataTypeError"""
+    args = {"self": _addr_self(), "data": T.Bytes()}
+
+    def ensures_family_and_width(self, data):
+        return self._data == data and \
+            implies(data[:2] == HOST_IP_ADDRESS_FAMILY_CODE_IPV4, len(data) == 6) and \
+            implies(data[:2] == HOST_IP_ADDRESS_FAMILY_CODE_IPV6, len(data) == 18)
+
+    def exceptional(self, data, exc):
+        return is_instance_of(exc, DataTypeError) and (
+            (data[:2] == HOST_IP_ADDRESS_FAMILY_CODE_IPV4 and len(data) != 6)
+            or (data[:2] == HOST_IP_ADDRESS_FAMILY_CODE_IPV6 and len(data) != 18))
+
+
+# ---- Time
+EPOCH_1900 = datetime.datetime(1900, 1, 1, 0, 0, 0)
+
+
+def _time_self():
+    return T.Obj(EventTimestampAVP, slots={"_flags": T.Bytes(1)},
+                 idict={"code": T.Const(EventTimestampAVP.code), "vendor_id": T.NoneS})
+
+
+def whole_seconds_since_1900(t):
+    d = t - EPOCH_1900
+    return d.days * 86400 + d.seconds
+
+
+@contract("bromelia.types.TimeType.__init__", prop="C20", name="datetime")
+class _TimeFromDatetime:
+    """every representable instant (1900-01-01 .. 2036-02-07 06:28:15) is encoded as its whole
+    seconds since 1900-01-01 in 4 big-endian bytes; instants outside raise"""
+    args = {"self": _time_self(), "data": T.DateTime()}
+
+    def ensures_seconds_since_1900(self, data):
+        n = whole_seconds_since_1900(data)
+        return 0 <= n and n < 4294967296 and self._data == be(n, 4)
+
+    def exceptional(self, data, exc):
+        n = whole_seconds_since_1900(data)
+        return not (0 <= n and n < 4294967296)
+
+    def control_unix_epoch(self, data):
+        return self._data == be(whole_seconds_since_1900(data) - 2208988800, 4)
+
+
+@contract("bromelia.types.TimeType.__init__", prop="C20", name="bytes")
+class _TimeFromBytes:
+    args = {"self": _time_self(), "data": T.Bytes()}
+
+    def ensures_four_bytes_kept(self, data):
+        return len(data) == 4 and self._data == data
+
+    def exceptional(self, data, exc):
+        return is_instance_of(exc, DataTypeError) and len(data) != 4
